@@ -295,6 +295,8 @@ func checkListener(c *Ctx, ce *chanEngine) {
 				c.OK("R3", site, a.In.Pos(), "under listener.mu")
 			case a.Fn == w.Fn && instrDominates(w.In, a.In):
 				c.OK("R3", site, a.In.Pos(), "same goroutine, after the write")
+			case func() bool { wp, ok := writePoints(p, w.Fn, w.In)[a.Fn]; return ok && instrDominates(wp, a.In) }():
+				c.OK("R3", site, a.In.Pos(), "same goroutine, after the call that performs the write")
 			case after[a.Fn]:
 				c.OK("R3", site, a.In.Pos(), "runs only after the write (called/spawned from code dominated by it)")
 			default:
@@ -583,10 +585,40 @@ func checkListener(c *Ctx, ce *chanEngine) {
 
 // afterWriteFns: functions all of whose callers are (a) sites in writerFn dominated by the
 // write instruction, or (b) sites inside functions already in the set (greatest fixpoint).
+// writePoints: the write itself and, when it sits in a helper that performs it on every path and has a single
+// (synchronous) call site, that call site - and so on upwards: everything dominated by such a point runs after the write.
+func writePoints(p *Prog, fn *ssa.Function, w ssa.Instruction) map[*ssa.Function]ssa.Instruction {
+	out := map[*ssa.Function]ssa.Instruction{fn: w}
+	for depth := 0; depth < 3; depth++ {
+		must := true
+		eachInstr(fn, func(_ *ssa.BasicBlock, _ int, in ssa.Instruction) {
+			if _, isRet := in.(*ssa.Return); isRet && !instrDominates(w, in) {
+				must = false
+			}
+		})
+		edges := p.callersOf(fn)
+		if !must || len(edges) != 1 || fn.Parent() != nil {
+			break
+		}
+		site := edges[0].Site
+		if _, isCall := site.(*ssa.Call); !isCall {
+			break
+		}
+		cf := edges[0].Caller.Func
+		if _, seen := out[cf]; seen {
+			break
+		}
+		out[cf] = site
+		fn, w = cf, site
+	}
+	return out
+}
+
 func afterWriteFns(p *Prog, writerFn *ssa.Function, w ssa.Instruction) map[*ssa.Function]bool {
+	wps := writePoints(p, writerFn, w)
 	cand := map[*ssa.Function]bool{}
 	for _, fn := range p.SrcFns {
-		if isModFn(fn) && fn != writerFn {
+		if _, isWP := wps[fn]; isModFn(fn) && !isWP {
 			cand[fn] = true
 		}
 	}
@@ -602,8 +634,8 @@ func afterWriteFns(p *Prog, writerFn *ssa.Function, w ssa.Instruction) map[*ssa.
 				eachInstr(par, func(_ *ssa.BasicBlock, _ int, in ssa.Instruction) {
 					if mc, isMC := in.(*ssa.MakeClosure); isMC && mc.Fn == ssa.Value(fn) {
 						created = true
-						if par == writerFn {
-							if !instrDominates(w, in) {
+						if wp, isWP := wps[par]; isWP {
+							if !instrDominates(wp, in) {
 								ok = false
 							}
 						} else if !cand[par] {
@@ -620,8 +652,8 @@ func afterWriteFns(p *Prog, writerFn *ssa.Function, w ssa.Instruction) map[*ssa.
 				}
 				for _, ed := range edges {
 					cf := ed.Caller.Func
-					if cf == writerFn {
-						if !instrDominates(w, ed.Site) {
+					if wp, isWP := wps[cf]; isWP {
+						if !instrDominates(wp, ed.Site) {
 							ok = false
 						}
 					} else if !cand[cf] {
